@@ -77,9 +77,13 @@ func parseClusterNodes(data string) (map[string]*instance, error) {
 		if inst.MasterID == "" {
 			continue
 		}
-		master := insts[inst.MasterID]
-		master.Replicas = append(master.Replicas, inst)
 		delete(insts, id)
+		// the master may be unknown (not listed, or itself a replica).
+		master, ok := insts[inst.MasterID]
+		if !ok || master.MasterID != "" {
+			continue
+		}
+		master.Replicas = append(master.Replicas, inst)
 	}
 	return insts, nil
 }
